@@ -156,7 +156,37 @@ pub fn move_pairs(thorough: bool, seed: u64) -> Vec<(String, Pd, Pd, bool)> {
         v.push(("braid figure8 ~ PD figure8".into(), braid_pd(3, &[1, -2, 1, -2]), f.clone(), true));
         v.push(("braid relation inside".into(), braid_pd(3, &[1, 2, 1, 2, 2]), braid_pd(3, &[2, 1, 2, 2, 2]), true));
     }
+    // the knot flag is recomputed from the diagram (strand relation), never trusted from the table above
+    for e in v.iter_mut() {
+        e.3 = pd_components(&e.1) == 1 && pd_components(&e.2) == 1;
+    }
     v
+}
+
+/// number of components of a PD code: orbits of the strand-through-crossing relation on edge labels
+pub fn pd_components(pd: &Pd) -> usize {
+    let mut labels: Vec<usize> = pd.iter().flat_map(|x| x.iter().cloned()).collect();
+    labels.sort();
+    labels.dedup();
+    let idx: BTreeMap<usize, usize> = labels.iter().enumerate().map(|(i, &e)| (e, i)).collect();
+    let mut parent: Vec<usize> = (0..labels.len()).collect();
+    fn find(p: &mut Vec<usize>, x: usize) -> usize {
+        let mut x = x;
+        while p[x] != x {
+            p[x] = p[p[x]];
+            x = p[x];
+        }
+        x
+    }
+    for x in pd {
+        for (a, b) in [(0, 2), (1, 3)] {
+            let (ra, rb) = (find(&mut parent, idx[&x[a]]), find(&mut parent, idx[&x[b]]));
+            if ra != rb {
+                parent[ra] = rb;
+            }
+        }
+    }
+    (0..labels.len()).filter(|&i| find(&mut parent, i) == i).count()
 }
 
 pub fn lib_signature<R>(l: &Link, h: &R, t: &R, reduced: bool) -> Vec<(isize, usize, Vec<R>)>
